@@ -15,6 +15,7 @@ BASE_NAMES = ['foo', 'Foo', 'FOO', 'foo.txt', 'foo.o', 'bar', 'bar.o', 'a',
 def config(tier):
     return {
         'level': 'exploration',
+        'cold_sample': 4 if tier == 'quick' else 30,
         'cases': 7000 if tier == 'quick' else 120000,
         'budget_s': 45 if tier == 'quick' else 560,
         'floors': {'cases': 300, 'judged_entries': 2000, 'removed': 300,
